@@ -408,6 +408,17 @@ pub fn run_hist<F: Flavour>(case: &HistCase, which: Which, st: &mut Stats, count
         }
         s = t;
     }
+    // once per history: the edge iterators of every node through the provided Iterator methods (nth, skip, step_by, ...)
+    if which != Which::C03 {
+        let r = catch_unwind(AssertUnwindSafe(|| nodes.iter().enumerate().filter(|(k, _)| s.out[*k].len() + s.inc[*k].len() <= 64).find_map(|(k, nd)| F::iter_adapters_check(nd).map(|m| format!("node {}: {}", k, m)))));
+        let msg = match r {
+            Ok(m) => m,
+            Err(p) => Some(format!("panic: {}", panic_msg(p))),
+        };
+        if let Some(m) = msg {
+            return Some(StepFail { step: case.ops.len().saturating_sub(1), fail: Fail { clause: "observe.iterator-adapters", detail: m }, pre: s, resolved });
+        }
+    }
     None
 }
 
